@@ -275,7 +275,7 @@ def r_heads(prog, tier):
                 if isinstance(x, ast.Name) and x.id not in (E, 'len'):
                     recognised = False
                 if isinstance(x, ast.Call) and not (unparse(x.func) in ('len',) or unparse(x.func) == '%s.index' % E
-                                                    or unparse(x.func) == '%s[::-1].index' % E):
+                                                    or unparse(x.func) == '%s[::-1].index' % E or unparse(x.func) == '%s.count' % E):
                     recognised = False
     want = {
         '0': {frozenset([('HD', False), ('NK', False)])},
